@@ -1,7 +1,7 @@
 (* C02 — property theorems only.  Each is closed by [exact <lemma>] and followed by
    Print Assumptions; the statements are pinned here so they cannot be quietly weakened. *)
 From FB Require Import C02.Model C02.Encode C02.Theory1 C02.Theory2 C02.Theory3 C02.Theory4 C02.Theory5
-  C02.Theory6 C02.Theory7 C02.Theory8 C02.Theory9 C02.Gen.
+  C02.Theory6 C02.Theory7 C02.Theory8 C02.Theory9 C02.Frames C02.TheoryF C02.Gen.
 Local Open Scope Z_scope.
 
 (* ---------- termination of the branch-offset fixpoint ---------- *)
@@ -185,16 +185,54 @@ Theorem C02_model_constants_match_source :
 Proof. exact model_constants_match_source. Qed.
 Print Assumptions C02_model_constants_match_source.
 
-(* ---------- stack map frames: known finding F14 ---------- *)
-Theorem C02_frames_written_partial : forall fs pos,
-  has_frames fs = false -> written_frames fs pos = tree_frames fs pos.
-Proof. exact frames_written_partial. Qed.
-Print Assumptions C02_frames_written_partial.
+(* ---------- stack map frames (written since "fix: class writer writes the StackMapTable attribute") ---------- *)
+(* A successful write of a method whose tree carries frames emits a StackMapTable whose body,
+   decoded by a byte-only decoder that follows the reader (frame types 0..63, 64..127, 247, 248..250,
+   251, 252..254, 255; verification types 0..8; offset = previous + delta + 1), yields exactly the
+   frames of the tree, in the form the tree holds them, each at the position of the instruction
+   that carries it in the written layout, with Uninitialized(label) at the position the layout
+   gives the label; no frames <=> no attribute; the rest of the method is what write_code gives. *)
+Theorem C02_frames_written : forall hasmax b last tb fs w W rt sm,
+  unique_labels b last -> frames_ok fs = true -> length fs = length b ->
+  write_code_f hasmax b last tb fs = Some (OK (w, W, rt, sm)) ->
+  let chs := chs_run W 0%N 0 [] b in
+  let L := labpos chs 0 b last in
+  write_code hasmax b last tb = Some (OK (w, W, rt)) /\
+  match sm with
+  | None => has_frames fs = false
+  | Some bs => has_frames fs = true /\
+      exists ds, tree_frames L (positions chs 0 b) fs = Some ds /\ dec_stack_map bs = Some ds
+  end.
+Proof. exact frames_written. Qed.
+Print Assumptions C02_frames_written.
 
-Theorem C02_frames_written_refuted :
-  exists fs pos, has_frames fs = true /\ written_frames fs pos <> tree_frames fs pos.
-Proof. exact frames_written_refuted. Qed.
-Print Assumptions C02_frames_written_refuted.
+(* the table alone: for every label map with u16 positions and every list of frames at u16 offsets *)
+Theorem C02_stack_map_roundtrip : forall labs frs bs,
+  lbounded labs ->
+  forallb (fun pf => sframe_ok (snd pf)) frs = true ->
+  Forall (fun pf => 0 <= fst pf <= 65535) frs ->
+  emit_stack_map labs frs = OK bs ->
+  exists ds, tframes (lget labs) frs = Some ds /\ dec_stack_map bs = Some ds.
+Proof. exact emit_stack_map_dec. Qed.
+Print Assumptions C02_stack_map_roundtrip.
+
+Theorem C02_write_code_f_terminates : forall hasmax b last tb fs, write_code_f hasmax b last tb fs <> None.
+Proof. exact write_code_f_terminates. Qed.
+Print Assumptions C02_write_code_f_terminates.
+
+Theorem C02_write_code_f_no_panic : forall hasmax b last tb fs,
+  unique_labels b last -> spans_ok b = true -> ranges_ok b last tb = true ->
+  write_code_f hasmax b last tb fs <> Some PANIC.
+Proof. exact write_code_f_no_panic. Qed.
+Print Assumptions C02_write_code_f_no_panic.
+
+Theorem C02_frames_example :
+  unique_labels exf_body None /\ frames_ok exf_frames = true /\
+  exists w W rt bs, write_code_f true exf_body None exf_tables exf_frames = Some (OK (w, W, rt, Some bs)) /\
+    bs = [0; 3;  0;  253; 0; 5; 7; 0; 9; 8; 0; 0;  255; 0; 0; 0; 1; 1; 0; 2; 4; 7; 0; 12]%N /\
+    dec_stack_map bs = Some [(0, DSame); (6, DAppend [DObject 9; DUninit 0]); (7, DFull [DSimple 1] [DSimple 4; DObject 12])].
+Proof. exact frames_example. Qed.
+Print Assumptions C02_frames_example.
 
 (* ---------- non-vacuity ---------- *)
 Theorem C02_examples : nonvacuous.
